@@ -75,6 +75,9 @@ def main():
             res[mid] = row
             caught = [c for c, v in row.get("checks", {}).items() if v["exit"] == 1 and v["violations"]]
             print("%s: caught by %s%s" % (mid, caught or "NONE", "  ERROR " + row["error"] if "error" in row else ""), flush=True)
+            ndone = locals().get("ndone", 0) + 1
+            if ndone % 20 == 0:
+                json.dump(res, open(path, "w"), indent=1, sort_keys=True)  # (incremental: a run stopped by a time limit keeps what it has)
     json.dump(res, open(path, "w"), indent=1, sort_keys=True)
 
 
